@@ -400,6 +400,7 @@ def units(tier):
             if ev[0] in ("set", "setattr") and ev[1] == name:
                 us.append({"kind": "bfs", "first": ev, "alpha": "shadow:" + name, "depth": 2})
     us.append({"kind": "laws"})
+    us.append({"kind": "leaves"})
     us.append({"kind": "search"})
     n = INFO["bounds"][tier]["hex_len"]
     for ls in list(range(1, 21)) + [32]:
@@ -415,6 +416,8 @@ def run_unit(unit, tier):
         run_bfs(unit, tier, r)
     elif k == "laws":
         run_laws(tier, r)
+    elif k == "leaves":
+        run_leaves(tier, r)
     elif k == "search":
         run_search(tier, r)
     elif k == "hex":
@@ -666,20 +669,93 @@ def run_hex(unit, r):
     r.sample({"linesize": ls, "strings": len(seen)})
 
 
+class Record:
+    """an ordinary (hashable, mutable) object as an adapter may return it"""
+    def __init__(self, v):
+        self.v = v
+    def __eq__(self, other):
+        return isinstance(other, Record) and self.v == other.v
+    def __hash__(self):
+        return 7
+
+
+def run_leaves(tier, r):
+    """deep copies are independent at every depth whatever the leaves are: mutable values that are neither dict nor list
+    (bytearray, set, array, an ordinary object, a tuple holding a list or an object, an open stream under _io) placed at
+    depth 1..3 below Container / ListContainer / list nodes; identity and mutation are both checked"""
+    import construct as C, array, io
+    def leaves():
+        return [("bytearray", bytearray(b"ab"), lambda x: x.append(1)), ("set", {1, 2}, lambda x: x.add(9)), ("array", array.array("B", [1, 2]), lambda x: x.append(3)),
+                ("record", Record([1]), lambda x: x.v.append(2)), ("tuple-of-list", ([1], 2), lambda x: x[0].append(9)), ("tuple-of-record", (Record(1),), lambda x: setattr(x[0], "v", 5)),
+                ("list", [1, 2], lambda x: x.append(3)), ("dict", {"k": 1}, lambda x: x.update(z=1)), ("frozen", (1, "a", b"b"), None)]
+    def placements(leaf):
+        yield "top", C.Container(a=1, x=leaf), lambda o: o["x"]
+        yield "private-key", C.Container(a=1, _x=leaf), lambda o: o["_x"]
+        yield "nested", C.Container(a=C.Container(b=C.Container(x=leaf))), lambda o: o["a"]["b"]["x"]
+        yield "in-listcontainer", C.Container(a=C.ListContainer([C.Container(x=leaf), 5])), lambda o: o["a"][0]["x"]
+        yield "in-list", C.Container(a=[0, [leaf]]), lambda o: o["a"][1][0]
+        yield "listcontainer-top", C.ListContainer([1, leaf]), lambda o: o[1]
+    for op in ("deepcopy", "pickle2", "pickle5"):
+        for lname, _, _ in leaves():
+            for i in range(6):
+                leaf, mut = [(l, m) for n, l, m in leaves() if n == lname][0]
+                pname, obj, get = list(placements(leaf))[i]
+                r.states += 1
+                case = {"leaves": [op, lname, pname]}
+                try:
+                    cp = do_copy(op, obj) if not isinstance(obj, list) or isinstance(obj, dict) else (copy.deepcopy(obj) if op == "deepcopy" else pickle.loads(pickle.dumps(obj, 2 if op == "pickle2" else 5)))
+                except Exception as e:
+                    r.violation("C20/%s/raised-%s" % (op, type(e).__name__), case, "copying a container holding a %s (%s) raised %r" % (lname, pname, e))
+                    continue
+                r.case(nontrivial=True, outcome="leaf-copy", transitions=2, validated=1)
+                a, b = get(obj), get(cp)
+                if not (a == b) or type(a) is not type(b):
+                    r.violation("C20/%s/leaf-value-differs" % op, case, "%s at %s: original %r, copy %r" % (lname, pname, a, b))
+                    continue
+                if mut is not None:
+                    if a is b:
+                        r.violation("C20/%s/leaf-shared" % op, case, "%s at %s: the copy holds the very same object as the original" % (lname, pname))
+                        continue
+                    before = copy.deepcopy(a) if lname != "record" and "record" not in lname else repr(getattr(a, "v", a))
+                    mut(b)
+                    after = a if lname != "record" and "record" not in lname else repr(getattr(a, "v", a))
+                    if after != before:
+                        r.violation("C20/%s/leaf-shared" % op, case, "%s at %s: mutating the copy changed the original (%r)" % (lname, pname, a))
+    # a parsed Struct result carries its stream under _io: deepcopy is documented to work on parsed containers
+    d = C.Struct("a" / C.Byte, "b" / C.Array(2, C.Byte))
+    obj = d.parse(b"\x01\x02\x03")
+    r.states += 1
+    try:
+        cp = copy.deepcopy(obj)
+        r.case(key=("leaves", "parsed"), nontrivial=True, outcome="leaf-copy", validated=1)
+        if not (cp == obj) or cp["b"] is obj["b"]:
+            r.violation("C20/deepcopy/parsed-container", {"leaves": ["deepcopy", "parsed", "struct"]}, "deepcopy of a parsed Struct result: %r vs %r" % (cp, obj))
+        elif cp.get("_io") is not None and cp["_io"] is obj["_io"]:
+            r.violation("C20/deepcopy/leaf-shared", {"leaves": ["deepcopy", "_io", "parsed"]}, "the copy of a parsed container shares the stream object _io with the original")
+    except Exception as e:
+        r.violation("C20/deepcopy/raised-%s" % type(e).__name__, {"leaves": ["deepcopy", "parsed", "struct"]}, "deepcopy of a parsed Struct result raised %r" % (e,))
+    r.sample({"leaves": [n for n, _, _ in leaves()], "placements": 6, "copies": ["deepcopy", "pickle2", "pickle5"]})
+
+
 def run_hexbig(r):
     # the 8-digit offset format (len >= 16**4)
-    for n in (16 ** 4 - 1, 16 ** 4, 16 ** 4 + 5):
-        for ls in (16, 7):
+    for n in (65504, 65505, 65519, 65520, 65521, 65533, 16 ** 4 - 1, 16 ** 4, 16 ** 4 + 1, 16 ** 4 + 5, 65551, 65552, 131072 + 3):
+        for ls in (1, 4, 7, 16, 17, 32):
+            if ls == 1 and n > 65537:
+                continue
             data = bytes((i * 7 + 3) % 256 for i in range(n))
             r.states += 1
             r.case(key=("big", n, ls), outcome="big", validated=1)
             for v in check_hex(data, ls):
                 v["case"] = {"big": n, "linesize": ls}
                 r.violation(v["sig"], v["case"], v["detail"][:300])
-    r.sample({"lengths": [16 ** 4 - 1, 16 ** 4, 16 ** 4 + 5]})
+    r.sample({"lengths": "65504..65552 (13 lengths around 16**4) and 131075", "linesizes": [1, 4, 7, 16, 17, 32]})
 
 
 def replay(case):
+    if "leaves" in case:
+        r = UnitResult(); run_leaves("quick", r)
+        return [v for v in r.violations if v["case"] == case]
     if "history" in case:
         vs = check_state(case["history"], "thorough", None)
         if not vs:
